@@ -392,14 +392,18 @@ def si_shift_bound(bank):
     return min(from_zero, from_centre)
 
 
+def effective_si_shift(spec, bank):
+    bound = si_shift_bound(bank)
+    if bound < 2:
+        raise core.Discard()
+    return bound - 1 if spec.get("S_top") else min(spec["S"], bound - 1)
+
+
 def build_si(spec, bank=None):
     from pydrobert.speech.compute import ShortIntegrationFrameComputer as SI
 
     bank = build_bank(spec["bank"]) if bank is None else bank
-    bound = si_shift_bound(bank)
-    if bound < 2:
-        raise core.Discard()
-    S = bound - 1 if spec.get("S_top") else min(spec["S"], bound - 1)
+    S = effective_si_shift(spec, bank)
     rate = spec["bank"]["sampling_rate"]
     comp = SI(
         bank,
@@ -434,3 +438,53 @@ def cut_lists(draw, n, L=8, S=4, max_cuts=8):
         a = draw(st.integers(0, n - 1))
         cuts += list(range(a, min(n, a + draw(st.integers(1, 6))) + 1))
     return sorted(cuts)
+
+
+# --------------------------------------------------------------------------- alias configs (CLI / JSON)
+
+def scale_config(spec):
+    d = {"alias": spec["alias"]}
+    for k in ("low_hz", "slope_hz"):
+        if k in spec:
+            d[k] = spec[k]
+    return d
+
+
+def bank_config(spec, alias_key="alias"):
+    names = {"tri": "triangular", "fbank": "fbank", "gabor": "gabor", "gammatone": "gammatone"}
+    d = {alias_key: names[spec["alias"]], "num_filts": spec["num_filts"], "low_hz": spec["low_hz"],
+         "high_hz": spec["high_hz"], "sampling_rate": spec["sampling_rate"]}
+    if "scale" in spec:
+        d["scaling_function"] = scale_config(spec["scale"])
+    for k in ("analytic", "erb", "scale_l2_norm", "order", "max_centered"):
+        if k in spec:
+            d[k] = spec[k]
+    return d
+
+
+def window_config(spec):
+    if spec is None:
+        return None
+    if spec["alias"] == "gamma":
+        return {"alias": "gamma", "order": spec["order"], "peak": spec["peak"]}
+    return spec["alias"]
+
+
+def computer_config(spec, alias_key="alias"):
+    """The alias/JSON configuration equivalent to build_computer(spec) (same ms values)."""
+    rate = spec["bank"]["sampling_rate"]
+    if spec["kind"] == "stft":
+        d = {alias_key: "stft", "bank": bank_config(spec["bank"]),
+             "frame_length_ms": None if spec["L"] is None else ms_for(spec["L"], rate),
+             "frame_shift_ms": ms_for(spec["S"], rate), "frame_style": spec["frame_style"],
+             "include_energy": spec["include_energy"], "pad_to_nearest_power_of_two": spec["pad"],
+             "use_log": spec["use_log"], "use_power": spec["use_power"], "kaldi_shift": spec["kaldi_shift"]}
+    else:
+        S = effective_si_shift(spec, build_bank(spec["bank"]))
+        d = {alias_key: "si", "bank": bank_config(spec["bank"]), "frame_shift_ms": ms_for(S, rate),
+             "frame_style": spec["frame_style"], "include_energy": spec["include_energy"],
+             "pad_to_nearest_power_of_two": spec["pad"], "use_log": spec["use_log"], "use_power": spec["use_power"]}
+    w = window_config(spec["window"])
+    if w is not None:
+        d["window_function"] = w
+    return d
